@@ -32,6 +32,11 @@ theorem advance_ind (P : State → Prop) (s : State) (d : Int)
 theorem bgDelete_inv {c : Codec} {x : Option ID} {s : State} (id : ID) (hi : InvX c x s) : InvX c x (bgDelete s id) :=
   inv_delete id hi
 
+theorem fireDue_inv {c : Codec} {x : Option ID} (s : State) (t : Int) (hi : InvX c x s) : InvX c x (fireDue s t).1 := by
+  apply fireDue_ind (InvX c x)
+  · intro tm htm; exact inv_timers tm (fun t id hm => hi.tkeys t id (htm _ hm)) hi
+  · intro s' id h; exact bgDelete_inv id h
+
 theorem advance_inv {c : Codec} {x : Option ID} (s : State) (d : Int) (hi : InvX c x s) : InvX c x (advance s d).1 := by
   apply advance_ind (InvX c x)
   · intro tm htm; exact inv_timers tm (fun t id hm => hi.tkeys t id (htm _ hm)) hi
